@@ -225,7 +225,8 @@ Definition look (strict : bool) (acc : list sexp) (q : queue)
 
 Section Parser.
 Variable strict : bool.
-(* cfix = false: parser.go as it is (finding curly-comment-drop); true: the repaired pop *)
+(* cfix = true: parser.go as it is now (`lexer.tokens = lexer.tokens[extra:]`); false: before that fix,
+   when tokens[0] (the first skipped comment token) was popped instead of the brace *)
 Variable cfix : bool.
 
 (* parser.go: ParseBlockComment *)
@@ -290,8 +291,7 @@ Fixpoint pexpr (f : nat) (acc : list sexp) (top : bool) (q : queue) (k : sexp ->
                   if kind_is second TSymbol && list_eqb (t_str second) str_for then as_infix q4
                   else as_hash q4))
             | TRCurly =>
-                (* `_, _ = lexer.GetNextToken() // discard '}'` pops tokens[0], which is the first skipped
-                   comment token when comments were skipped; cfix: pop the comments and the brace *)
+                (* drop the skipped comment tokens and the brace (before the fix: only tokens[0]) *)
                 k SHashEmpty (if cfix then q_drop extra q3 else q_tail q3)
             | TString =>
                 need acc extra q3 (fun q4 => idx q4 extra (fun second =>
@@ -472,7 +472,7 @@ Definition observe (o : outcome) : status * list sexp :=
    block comment, or a reader prefix (% ^ ~ ~@) whose datum has not started.  A plain scanner
    over the runes; it shares nothing with the lexer model. ---- *)
 
-Inductive smode : Type := MCode | MStr | MStrEsc | MRaw | MLine | MBlock | MBlockStar | MSlash | MRune | MRuneEsc.
+Inductive smode : Type := MCode | MStr | MStrEsc | MRaw | MLine | MBlock | MBlockStar | MSlash | MRune | MRuneEsc | MTilde.
 
 (* scanner state: mode, bracket depth, "a reader prefix is waiting for its datum" *)
 Definition sstate : Type := (smode * Z * bool)%type.
@@ -484,8 +484,9 @@ Definition scan_code (depth : Z) (pending : bool) (c : Z) : sstate :=
   else if c =? 47 then (MSlash, depth, false)
   else if (c =? 40) || (c =? 91) || (c =? 123) then (MCode, depth + 1, false)
   else if (c =? 41) || (c =? 93) || (c =? 125) then (MCode, depth - 1, false)
-  else if (c =? 37) || (c =? 94) || (c =? 126) then (MCode, depth, true)
-  else if (c =? 64) || (c =? 32) || (c =? 9) || (c =? 10) || (c =? 13) then (MCode, depth, pending)
+  else if (c =? 37) || (c =? 94) then (MCode, depth, true)
+  else if c =? 126 then (MTilde, depth, true)
+  else if (c =? 32) || (c =? 9) || (c =? 10) || (c =? 13) then (MCode, depth, pending)
   else (MCode, depth, false).
 
 Definition scan_step (st : sstate) (c : Z) : sstate :=
@@ -501,6 +502,7 @@ Definition scan_step (st : sstate) (c : Z) : sstate :=
   | MBlockStar => if c =? 47 then (MCode, depth, false) else if c =? 42 then (MBlockStar, depth, false) else (MBlock, depth, false)
   | MRune => if c =? 92 then (MRuneEsc, depth, false) else if c =? 39 then (MCode, depth, false) else (MRune, depth, false)
   | MRuneEsc => (MRune, depth, false)
+  | MTilde => if c =? 64 then (MCode, depth, true) else scan_code depth true c   (* ~@ or ~ form *)
   end.
 
 Definition scan (text : list Z) : sstate := fold_left scan_step text (MCode, 0, false).
@@ -510,6 +512,6 @@ Definition scan (text : list Z) : sstate := fold_left scan_step text (MCode, 0, 
 Definition unfinished (text : list Z) : option bool :=
   let '(m, depth, pending) := scan (text ++ nl) in
   match m with
-  | MStr | MStrEsc | MRaw | MBlock | MBlockStar | MRune | MRuneEsc => Some true
+  | MStr | MStrEsc | MRaw | MBlock | MBlockStar | MRune | MRuneEsc | MTilde => Some true
   | _ => if depth <? 0 then None else Some ((0 <? depth) || pending)
   end.
